@@ -6,13 +6,14 @@
 (*                                                                                                                   *)
 (* State                                                                                                             *)
 (*   settings  the designed network's settings (an abstract constant record: per amplifier its gain and p_max)       *)
-(*   live      the run-time operating point held by the NETWORK's own element objects (Edfa.effective_gain ...)      *)
+(*   live      the run-time state held by the NETWORK's own element objects: amplifier operating gain                 *)
+(*             (Edfa.effective_gain) and, per receiving Transceiver, the penalties of the last evaluation             *)
 (*   sim       the process-wide simulation parameters (SimParams): here the channels the NLI is evaluated on - NONE  *)
 (*             means "derive them from the propagated comb"; a propagation that stores what it derived fixes them     *)
 (*             for every later request                                                                              *)
 (*   occ       spectrum occupancy per OMS (set of slot indices)                                                      *)
 (*   done      sequence of processed request classes;  result[r]  the result computed for r (NoResult before)        *)
-(*   response  <<>> until Report, then one entry per processed request                                               *)
+(*   response  <<>> until Report, then one entry per processed request;  csv  the exported rows, same order          *)
 (*                                                                                                                   *)
 (* An element mutates ITSELF while propagating (the amplifier keeps the gain it was clamped to).  The property       *)
 (* holds because each request propagates on a private copy of its path taken from `settings`; the constant Leaky     *)
@@ -24,17 +25,20 @@ CONSTANTS Classes,     \* request classes of the pool (strings)
           Amps,        \* amplifiers of the designed network
           Oms,         \* optical multiplex sections
           Design,      \* [Amps -> [gain, pmax]]  what the design step produced
-          Req,         \* [Classes -> [short, rshort, include, hop, via, rvia, oms, load, nch, mode, modes, slot, bidir, bw, type]]  (see MC_Planning)
-          ModeTable,   \* sequence of [name, thr] explored in this order by the automatic selection
+          Req,         \* [Classes -> [short, rshort, src, dst, include, hop, via, rvia, oms, load, nch, mode, modes, slot, bidir, bw, type]]  (see MC_Planning)
+          Rcvs,        \* receiving Transceiver objects of the network (one per destination)
+          ModeTable,   \* sequence of [name, thr, pen] explored in this order by the automatic selection; pen = NONE when
+                       \* the mode defines no impairment penalty, else the penalty (micro-dB) the path incurs
           NSlots,      \* slot indices 0..NSlots-1 on every OMS
           Leaky        \* FALSE: the property's mechanism (private copy); TRUE: the defect
 
-VARIABLES settings, live, sim, occ, done, result, response
-vars == <<settings, live, sim, occ, done, result, response>>
+VARIABLES settings, live, sim, occ, done, result, response, csv
+vars == <<settings, live, sim, occ, done, result, response, csv>>
 
 SimDefault == [cut |-> NONE]
 
-NoResult == [reason |-> "none", raised |-> <<>>, route |-> <<>>, mode |-> "", gsnr |-> NONE, gsnrRev |-> NONE, nm |-> <<>>]
+NoResult == [reason |-> "none", raised |-> <<>>, route |-> <<>>, mode |-> "", gsnr |-> NONE, gsnrRev |-> NONE, pen |-> NONE,
+             penRev |-> NONE, nm |-> <<>>]
 Slots    == 0..(NSlots - 1)
 
 -----------------------------------------------------------------------------
@@ -62,16 +66,27 @@ Route(r) == IF r.include = <<>> THEN r.short
             ELSE IF r.via # <<>> THEN r.via
             ELSE IF r.hop = "LOOSE" THEN r.short ELSE <<>>
 
-(* Judge: forced mode -> MODE_NOT_FEASIBLE below its threshold; automatic -> first mode of the transponder type        *)
-(* (explored in table order) that passes, else NO_FEASIBLE_MODE with the last explored one.                           *)
+(* The receiving Transceiver OBJECT holds the penalties of the last mode evaluated on it (calc_penalties).  Evaluating *)
+(* a mode that defines no penalty must leave it with none - not with what the previous evaluation (an earlier mode    *)
+(* explored on the same path, an earlier request ending on the same object) left there.                               *)
+Held(m, before) == IF m.pen # NONE THEN m.pen ELSE IF Leaky THEN before ELSE 0
+
+(* Judge: forced mode -> MODE_NOT_FEASIBLE when GSNR minus penalty is below its threshold; automatic -> first mode of   *)
+(* the transponder type (explored in table order, each evaluated on the same receiver object) that passes, else        *)
+(* NO_FEASIBLE_MODE with the last explored one.  Returns the mode, the reason and the penalty the receiver now holds.  *)
 ModeIdx(name) == CHOOSE i \in 1..Len(ModeTable) : ModeTable[i].name = name
 ThrOf(name)   == ModeTable[ModeIdx(name)].thr
 Explored(r)   == {i \in 1..Len(ModeTable) : ModeTable[i].name \in r.modes}
-Passing(r, g) == {i \in Explored(r) : g >= ModeTable[i].thr}
-Judge(r, g) ==
-    IF r.mode # "" THEN [mode |-> r.mode, reason |-> IF g >= ThrOf(r.mode) THEN "" ELSE "MODE_NOT_FEASIBLE"]
-    ELSE IF Passing(r, g) # {} THEN [mode |-> ModeTable[SetMin(Passing(r, g))].name, reason |-> ""]
-    ELSE [mode |-> ModeTable[SetMax(Explored(r))].name, reason |-> "NO_FEASIBLE_MODE"]
+RECURSIVE Explore(_, _, _, _)
+Explore(r, g, todo, before) ==           \* todo: the indices still to explore
+    LET i == SetMin(todo)  m == ModeTable[i]  h == Held(m, before) IN
+    IF g - h >= m.thr THEN [mode |-> m.name, reason |-> "", pen |-> h]
+    ELSE IF todo = {i} THEN [mode |-> m.name, reason |-> "NO_FEASIBLE_MODE", pen |-> h]
+    ELSE Explore(r, g, todo \ {i}, h)
+Judge(r, g, before) ==
+    IF r.mode # "" THEN LET m == ModeTable[ModeIdx(r.mode)]  h == Held(m, before) IN
+                        [mode |-> r.mode, reason |-> IF g - h >= m.thr THEN "" ELSE "MODE_NOT_FEASIBLE", pen |-> h]
+    ELSE Explore(r, g, Explored(r), before)
 
 (* Assign: a fixed slot is taken as given or the request is blocked; a free one is placed first-fit.                 *)
 Range(n, m)   == n..(n + m - 1)
@@ -90,27 +105,31 @@ First(raised) == IF raised = <<>> THEN "" ELSE raised[1]
 Compute(d, st, simv, oc, c) ==
     LET r == Req[c]  path == Route(r) IN
     IF path = <<>> THEN [res |-> [reason |-> "NO_PATH_WITH_CONSTRAINT", raised |-> <<"NO_PATH_WITH_CONSTRAINT">>,
-                                  route |-> <<>>, mode |-> r.mode, gsnr |-> NONE, gsnrRev |-> NONE, nm |-> <<>>],
+                                  route |-> <<>>, mode |-> r.mode, gsnr |-> NONE, gsnrRev |-> NONE, pen |-> NONE,
+                                  penRev |-> NONE, nm |-> <<>>],
                          st |-> st, cut |-> simv.cut, oc |-> oc]
     ELSE LET rpath == IF path = r.via THEN r.rvia ELSE r.rshort
-             w   == Walk(d, st, path, 1, r.load)
+             w   == Walk(d, st.gain, path, 1, r.load)
              g   == Gsnr(path, w.deficit) - NliError(simv, r)
-             j   == Judge(r, g)
+             j   == Judge(r, g, st.rx[r.dst])                            \* evaluated on the destination's receiver
              w2  == IF r.bidir THEN Walk(d, w.st, rpath, 1, r.load)      \* the reverse direction: its own amplifiers
                     ELSE [st |-> w.st, deficit |-> 0]
              g2  == IF r.bidir THEN Gsnr(rpath, w2.deficit) - NliError(simv, r) - 100000 ELSE NONE
+             h2  == IF r.bidir THEN Held(ModeTable[ModeIdx(j.mode)], st.rx[r.src]) ELSE NONE   \* ... and the source's
              fwd == IF j.reason # "" THEN <<j.reason>> ELSE <<>>
-             rev == IF r.bidir /\ g2 < ThrOf(j.mode) THEN <<"MODE_NOT_FEASIBLE">> ELSE <<>>
+             rev == IF r.bidir /\ g2 - h2 < ThrOf(j.mode) THEN <<"MODE_NOT_FEASIBLE">> ELSE <<>>
              nm  == IF fwd \o rev = <<>> THEN Assign(oc, r) ELSE <<>>
              spc == IF fwd \o rev = <<>> /\ nm = <<>> THEN <<"NO_SPECTRUM">> ELSE <<>>
              raised == fwd \o rev \o spc
          IN [res |-> [reason |-> First(raised), raised |-> raised, route |-> path, mode |-> j.mode, gsnr |-> g,
-                      gsnrRev |-> g2, nm |-> IF nm = <<>> THEN <<>> ELSE <<nm>>],
-             st |-> w2.st, cut |-> Cut(simv, r),
+                      gsnrRev |-> g2, pen |-> j.pen, penRev |-> h2, nm |-> IF nm = <<>> THEN <<>> ELSE <<nm>>],
+             st |-> [gain |-> w2.st,
+                     rx |-> [x \in Rcvs |-> IF x = r.dst THEN j.pen ELSE IF r.bidir /\ x = r.src THEN h2 ELSE st.rx[x]]],
+             cut |-> Cut(simv, r),
              oc |-> IF raised = <<>> THEN [o \in Oms |-> IF o \in r.oms THEN oc[o] \cup Range(nm[1], nm[2]) ELSE oc[o]]
                     ELSE oc]
 
-DesignGains(d) == [a \in Amps |-> d[a].gain]
+DesignGains(d) == [gain |-> [a \in Amps |-> d[a].gain], rx |-> [x \in Rcvs |-> 0]]    \* fresh element objects
 Solo(c) == Compute(Design, DesignGains(Design), SimDefault, [o \in Oms |-> {}], c).res     \* the result of c computed alone
 
 -----------------------------------------------------------------------------
@@ -121,6 +140,7 @@ Init == /\ settings = Design
         /\ done = <<>>
         /\ result = [c \in Classes |-> NoResult]
         /\ response = <<>>
+        /\ csv = <<>>
 
 Process(c) ==
     /\ response = <<>>
@@ -132,20 +152,31 @@ Process(c) ==
           /\ live' = IF Leaky THEN x.st ELSE live
           /\ sim' = IF Leaky THEN [cut |-> x.cut] ELSE sim         \* the defect: what was derived is stored
     /\ done' = Append(done, c)
-    /\ UNCHANGED <<settings, response>>
+    /\ UNCHANGED <<settings, response, csv>>
 
 (* the outcome record (PlanningOps) of a processed class, and the report *)
-RxOf(g) == [k \in MetricKeys |-> IF k \in {"pdl", "cd", "pmd"} THEN NONE
-                                 ELSE IF g = NONE THEN NONE ELSE g - (IF k = "snrmin" THEN 40000 ELSE 0)]
+RxOf(g, pen) == [k \in MetricKeys |-> IF k \in {"pdl", "pmd"} THEN NONE
+                                      ELSE IF k = "cd" THEN (IF pen = NONE \/ pen = 0 THEN NONE ELSE pen)
+                                      ELSE IF g = NONE THEN NONE ELSE g - (IF k = "snrmin" THEN 40000 ELSE 0)]
 OutcomeOf(c) ==
     LET r == Req[c]  res == result[c] IN
     [members |-> <<[id |-> c, bw |-> r.bw, key |-> c, bidir |-> r.bidir]>>, reason |-> res.reason, raised |-> res.raised,
      route |-> IF res.route = <<>> THEN <<>> ELSE <<"trx src">> \o res.route \o <<"trx dst">>,
      type |-> r.type, mode |-> res.mode, nm |-> res.nm, bidir |-> r.bidir, hasRev |-> r.bidir /\ res.route # <<>>,
-     rx |-> RxOf(res.gsnr), rxRev |-> RxOf(res.gsnrRev), power |-> 1000000, powerudbm |-> 0,
+     rx |-> RxOf(res.gsnr, res.pen), rxRev |-> RxOf(res.gsnrRev, res.penRev), power |-> 1000000, powerudbm |-> 0,
      mi |-> [osnr |-> 1200, margin |-> 200, baud |-> 3200, bitrate |-> 10000, cost |-> 100]]
+(* the CSV writer goes through the entries in order; a row is built from its own entry only - the defective variant   *)
+(* keeps the reverse-direction block of the last bidirectional row for the rows that follow                            *)
+RECURSIVE WriteRows(_, _, _)
+WriteRows(ents, k, carry) ==
+    IF k > Len(ents) THEN <<>>
+    ELSE LET o   == OutcomeOf(done[k])
+             own == CsvRow(o, ents[k])
+             rev == IF ents[k].hasZA \/ ~Leaky \/ ~ents[k].hasProps THEN own.rev ELSE carry
+         IN <<[own EXCEPT !.rev = rev]>> \o WriteRows(ents, k + 1, IF ents[k].hasZA THEN own.rev ELSE carry)
 Report == /\ response = <<>> /\ done # <<>>
           /\ response' = [i \in 1..Len(done) |-> ReportEntry(OutcomeOf(done[i]))]
+          /\ csv' = WriteRows([i \in 1..Len(done) |-> ReportEntry(OutcomeOf(done[i]))], 1, Blank)
           /\ UNCHANGED <<settings, live, sim, occ, done, result>>
 
 Next == (\E c \in Classes : Process(c)) \/ Report
@@ -154,7 +185,7 @@ Spec == Init /\ [][Next]_vars
 -----------------------------------------------------------------------------
 (* ---- C16 ---- *)
 Core(res) == [reason |-> PreSpectrum(res.reason), route |-> res.route, mode |-> res.mode, gsnr |-> res.gsnr,
-              gsnrRev |-> res.gsnrRev]
+              gsnrRev |-> res.gsnrRev, pen |-> res.pen, penRev |-> res.penRev]
 
 Independent ==       \* route, mode, GSNR figures and feasibility verdict: as if computed alone, whatever `done` was
     \A i \in 1..Len(done) : Core(result[done[i]]) = Core(Solo(done[i]))
@@ -188,8 +219,14 @@ ReportIsOneEntryPerRequest ==
 ReportStatesWhatWasComputed ==
     Reported => \A i \in 1..Len(done) : EntryViol(OutcomeOf(done[i]), response[i]) = {}
 ReportedCsvIsConsistent ==
-    Reported => \A i \in 1..Len(done) :
-        LET o == OutcomeOf(done[i]) IN CsvViol(o, response[i], CsvRow(o, response[i])) = {}
+    Reported => \A i \in 1..Len(done) : CsvViol(OutcomeOf(done[i]), response[i], csv[i]) = {}
+ReportedViewsIndependent ==     \* C16 on what is REPORTED: entry and CSV row of a request are those of the request alone
+    Reported => \A i \in 1..Len(done) :       \* (slots and the spectrum verdict apart), whatever rows precede it
+        LET c == done[i]
+            solo  == Solo(c)
+            alone == [OutcomeOf(c) EXCEPT !.reason = solo.reason, !.raised = solo.raised, !.nm = solo.nm]
+            row   == CsvRow(alone, ReportEntry(alone))
+        IN  Core(result[c]) = Core(solo) => (csv[i].rev = row.rev /\ csv[i].m = row.m /\ csv[i].path = row.path)
 
 TypeOK == /\ done \in Seq(Classes) /\ Cardinality(SeqRange(done)) = Len(done)
           /\ \A o \in Oms : occ[o] \subseteq Slots
